@@ -263,6 +263,9 @@ class Bidding:
                 if e.kind == 'aug' or len(e.keys) != 1 or e.value is None:
                     return None
                 val = pe.eval(e.value)
+                if val is NOVALUE and isinstance(e.value, ast.IfExp) and isinstance(e.value.body, ast.Constant) and isinstance(e.value.orelse, ast.Constant):
+                    # `1 if <condition over state the valuation leaves open> else 0`: one of the two constants
+                    val = ('either', e.value.body.value, e.value.orelse.value)
                 if val is NOVALUE:
                     return None
                 if e.slice is not None:
